@@ -493,6 +493,44 @@ theorem cont_run {fl : Bool} (tmpl : Term) (max : Nat) (prog : List Term) (hprog
           have := altRel_match (fl := true) (d := d) (θ0 := θ0) [] hW1 hgD clauseC_ifthen1 rfl (by rw [hig]; rfl) bv_ifthen1
             (.cons d (fun _ => rfl) (.cons d (fun _ => rfl) (.cons l (fun h => by cases h) .nil)))
           exact this
+      | disj a b hx ha =>
+        -- a disjunction as a goal: the three clauses of `;`/2 — the heads of the two if-then-else
+        -- clauses clash, `P ; Q :- call((P ; Q))` is a wrapper: the reference runs `call((a ; b))`'s body
+        subst hx
+        subst hfl
+        simp only [functorName, argList, Args.toList] at harr
+        rw [builtin_semi] at harr
+        have hig : img σ1 π (.app ";" (.cons a (.cons b .nil))) =
+            .app ";" (.cons (img σ1 π a) (.cons (img σ1 π b) .nil)) := rfl
+        rw [hig, solve_disj_goal _ _ _ _ _ _ _ _ _ _ (disjHead_img σ1 π ha)] at hs
+        obtain ⟨p0, hp0, hcl0⟩ := boot_semi
+        have hlk : lookupProc m.user ";" 2 = some p0 := by
+          rw [lookupProc_stOK hst, lookup_other prog hprog _ _ userPred_semi, hp0]
+        simp only [List.length_cons, List.length_nil] at harr
+        rw [hlk] at harr
+        simp only [Option.some.injEq] at harr
+        have hp : p = ({ id := m.user.nextId, delayed := ([(clauseOf ite1, ite1, none), (clauseOf ite2, ite2, none)] : List Item).map (fun it => Thunk.clause it.1 (argList (.app ";" (.cons a (.cons b .nil)))) K' env1 m.user.nextId) ++ [Thunk.clause (clauseOf disj3) (argList (.app ";" (.cons a (.cons b .nil)))) K' env1 m.user.nextId] } : Pr) := by
+          have : p = (clausesCall p0.clauses [a, b] K' env1 m).1 := by rw [harr]
+          rw [this, hcl0]
+          simp [clausesCall, freshId, argList, Args.toList]
+        have hm1 : m1 = { m with user := { m.user with nextId := m.user.nextId + 1 } } := by
+          have : m1 = (clausesCall p0.clauses [a, b] K' env1 m).2 := by rw [harr]
+          rw [this]; rfl
+        rw [hp, hm1]
+        let θ0 : Subst := fun x => if x = 0 then img σ1 π a else img σ1 π b
+        have hclash : ∀ x y z : Term, ∃ n, Robinson.solve n
+            [(img σ1 π (.app ";" (.cons a (.cons b .nil))),
+              .app ";" (.cons (.app "->" (.cons x (.cons y .nil))) (.cons z .nil)))] [] = .clash :=
+          fun x y z => ⟨2, by rw [hig]; exact clash_ite (disjHead_img σ1 π ha) x y z⟩
+        have hwr := altRel_match (fl := true) (d := d) (θ0 := θ0) [] hW1 hgD clauseC_disj3 rfl (by rw [hig]; rfl) bv_disj3
+          (.cons l (fun h => by cases h) .nil)
+        exact toW3 ⟨.wrap (its := [(clauseOf ite1, ite1, none), (clauseOf ite2, ite2, none)])
+          (Fs := [.goal (SLD.call1 (.app ";" (.cons (img σ1 π a) (.cons (img σ1 π b) .nil)))) l])
+          rfl (Nat.pos_iff_ne_zero.1 hst.2.1) (Or.inr ⟨_, _, rfl, by simp [Args.length]⟩)
+          ⟨N, σ1, π, D, G', hN, hW1, hcg', hgr1, hco', hq1, hgD,
+            .cons (altRel_dead hW1 clauseC_ite1 rfl bv_ite1 (hclash _ _ _))
+              (.cons (altRel_dead hW1 clauseC_ite2 rfl bv_ite2 (hclash _ _ _)) .nil),
+            rfl, hwr, wrapBody_disj3⟩ hs, hst.nextId, Nat.le_refl _⟩
       | callN x e es hx hl =>
         -- call/N, 2 ≤ N ≤ 8: the goal is built from the closure and the additional arguments
         subst hx
